@@ -571,7 +571,8 @@ class WorkerInterp:
             if state is not None:
                 val = state.vals.get(name)
                 if val is not None and val[0] in ('validated', 'const',
-                                                  'mapping', 'none'):
+                                                  'mapping', 'none',
+                                                  'final'):
                     return False
             return True
 
@@ -655,12 +656,14 @@ class WorkerInterp:
             cands, _ = self.program.resolve_call(self.func, expr)
             if cands and all(_returns_validated(c, self.program)
                              for c in cands):
-                return ('validated',)
+                if all(_checks_final(c, self.program) for c in cands):
+                    return ('final', 'helper')
+                return ('validated', 'helper')
         if isinstance(expr, (ast.Attribute, ast.Subscript)) and isinstance(
                 expr.value, ast.Name) and state.vals.get(
-                    expr.value.id) == ('validated',):
+                    expr.value.id, ('',))[0] in ('validated', 'final'):
             # a field of the value object built by a validating helper
-            return ('validated',)
+            return (state.vals[expr.value.id][0], 'helper')
         if isinstance(expr, ast.Dict):
             return ('mapping',)
         if self._expr_tainted(expr, self.tainted_names):
@@ -742,6 +745,21 @@ class WorkerInterp:
                 elif types <= {'tuple', 'list'}:
                     state.vals[name] = ('sequence',)
             else:
+                state.failed_validation = True
+            return
+        if isinstance(test, ast.Compare) and len(test.ops) == 1 and \
+                isinstance(test.ops[0], (ast.In, ast.NotIn)) and isinstance(
+                    test.left, ast.Name):
+            # `status in (DONE, FAILED, SKIPPED)`: the accepting outcome
+            # knows that the status is one the master treats as settled
+            mems = _status_set(self.program, self.func, test.comparators[0])
+            accepting = isinstance(test.ops[0], ast.In) == outcome
+            if mems is not None and accepting and mems <= FINAL_STATUSES and \
+                    state.vals.get(test.left.id, ('',))[0] in (
+                        'validated', 'final'):
+                state.vals[test.left.id] = ('final',)
+            elif mems is not None and not accepting and \
+                    test.left.id in self.tainted_names:
                 state.failed_validation = True
             return
         if isinstance(test, ast.Compare) and len(test.ops) == 1:
@@ -1127,12 +1145,13 @@ def check_wrk2(ctx, shared=None):
                 seen.setdefault(f'{desc} writes constant {val[1]}'
                                 + (' on a failed-validation path'
                                    if not ok else ''), (ok, sev.where))
-            elif val[0] == 'validated' and state.failed_validation:
+            elif val[0] in ('validated', 'final') and \
+                    state.failed_validation:
                 seen.setdefault(
                     f'{desc} writes the status returned by the task on a '
                     f'path where the result failed validation',
                     (False, sev.where))
-            elif val[0] == 'validated':
+            elif val[0] in ('validated', 'final'):
                 seen.setdefault(f'{desc} writes a validated status',
                                 (True, sev.where))
             elif val[0] == 'tainted':
@@ -1161,6 +1180,109 @@ def check_wrk2(ctx, shared=None):
     s_nodes = {id(e.node) for _, st in paths for e in st.events
                if e.kind == 'S'}
     ctx.floor('WRK-2', len(s_nodes), 1, 'status writes in the worker')
+
+
+FINAL_STATUSES = frozenset({'DONE', 'FAILED', 'SKIPPED'})
+
+
+def _status_set(program, func, expr, depth=0):
+    '''Names of the TaskStatus members of a tuple / set / list display (or
+    of a module / class constant bound to one, or frozenset(...) of one),
+    else None.'''
+    if isinstance(expr, ast.Call) and call_name(expr) in (
+            'frozenset', 'set', 'tuple', 'list') and len(expr.args) == 1:
+        return _status_set(program, func, expr.args[0], depth)
+    if isinstance(expr, (ast.Tuple, ast.Set, ast.List)):
+        mems = [enum_member(e, 'TaskStatus') for e in expr.elts]
+        return frozenset(mems) if mems and all(mems) else None
+    if depth < 2 and isinstance(expr, (ast.Name, ast.Attribute)):
+        name = expr.id if isinstance(expr, ast.Name) else expr.attr
+        holders = [func.module.tree.body]
+        cls_ = func.cls
+        while cls_ is not None:
+            holders.append(cls_.node.body)
+            cls_ = getattr(cls_, 'parent_cls', None)
+        for body in holders:
+            for stmt in body:
+                if isinstance(stmt, ast.Assign) and len(
+                        stmt.targets) == 1 and isinstance(
+                            stmt.targets[0], ast.Name) and \
+                        stmt.targets[0].id == name:
+                    return _status_set(program, func, stmt.value, depth + 1)
+    return None
+
+
+def _checks_final(func, program, depth=0):
+    '''The helper rejects (raises on) a status outside a set of settled
+    statuses, itself or in a resolved callee that receives its argument.'''
+    for node in walk_local(func.node):
+        if isinstance(node, ast.If) and isinstance(
+                node.test, ast.Compare) and len(node.test.ops) == 1 and \
+                isinstance(node.test.ops[0], (ast.In, ast.NotIn)):
+            mems = _status_set(program, func, node.test.comparators[0])
+            reject = node.body if isinstance(node.test.ops[0], ast.NotIn) \
+                else node.orelse
+            if mems is not None and mems <= FINAL_STATUSES and any(
+                    isinstance(st, ast.Raise) for st in reject):
+                return True
+    if depth < 2:
+        pars = {a.arg for a in func.node.args.args}
+        for call in calls_in(func.node):
+            if not any(isinstance(n, ast.Name) and n.id in pars
+                       for a in call.args for n in ast.walk(a)):
+                continue
+            cands, _ = program.resolve_call(func, call)
+            if cands and all(c.key != func.key and _checks_final(
+                    c, program, depth + 1) for c in cands):
+                return True
+    return False
+
+
+def check_wrk_final(ctx, shared=None):
+    '''The master releases a task when its dependencies are DONE, FAILED
+    or SKIPPED and sleeps until a worker notifies it.  A status published
+    by the worker for a task it has run must therefore be one of those: a
+    task whose do() returns TaskStatus.PENDING or WAITING (valid members,
+    accepted by `TaskStatus(status)`) would leave its dependents WAITING
+    for ever - no other notification comes - and schedule() would never
+    return.'''
+    wrk, interp, paths = shared or analyse_worker(ctx)
+    func = wrk.func
+    seen = {}
+    for kind, state in paths:
+        evs = state.events
+        if kind == 'raise' or not any(e.kind == 'DO' for e in evs):
+            continue
+        for sev in [e for e in evs if e.kind == 'S']:
+            val = interp.absval(sev.value, state)
+            desc = txt(sev.node)[:70]
+            if sev.cond:
+                seen.setdefault(f'{desc}: conditional write in a helper',
+                                (None, sev.where))
+            elif val[0] == 'const':
+                seen.setdefault(f'{desc} writes {val[1]}',
+                                (val[1] in FINAL_STATUSES, sev.where))
+            elif val[0] == 'final':
+                seen.setdefault(f'{desc} writes a status checked to be '
+                                f'DONE, FAILED or SKIPPED', (True, sev.where))
+            elif val == ('validated',):
+                seen.setdefault(
+                    f'{desc} writes any TaskStatus member the task returned',
+                    (False, sev.where))
+            else:
+                # validated by a helper, tainted (WRK-2 reports that) or of
+                # unknown origin: whether it is final is not read here
+                seen.setdefault(f'{desc}: finality of the status not read',
+                                (None, sev.where))
+    for key, (outcome, where) in seen.items():
+        ctx.decide('WRK-FINAL', func, key, outcome,
+                   at=where or func.where(),
+                   detail='PENDING and WAITING are members of TaskStatus too: '
+                          'published for a task that has run, they keep its '
+                          'dependents WAITING for ever and the scheduling '
+                          'call never comes back' if outcome is False
+                   else None)
+    ctx.floor('WRK-FINAL', len(seen), 1, 'status writes in the worker')
 
 
 def _went_through_handler(state):
